@@ -103,9 +103,22 @@ let show_value = function
   | VHandle (Some h) -> "ok " ^ hname h
   | VHandle None -> "ok -"
 
+(* C05: per case, does the history satisfy the guard of the uniqueness theorem (Heap/Uniq.v run_ok), and does the
+   model's state satisfy the invariant after every call; summed over the run and written to stderr at the end *)
+let guard_ok = ref true
+let uniq_ok = ref true
+let st_cases = ref 0 and st_guard = ref 0 and st_fail_guarded = ref 0 and st_fail_unguarded = ref 0
+let tally () =
+  incr st_cases;
+  if !guard_ok then incr st_guard;
+  if not !uniq_ok then (if !guard_ok then incr st_fail_guarded else incr st_fail_unguarded);
+  guard_ok := true; uniq_ok := true
+
 let apply w (o : op) : string =
+  if not (drv_op_ok w.st o) then guard_ok := false;
   let (s', r) = drv_exec o w.st in
   w.st <- s';
+  if not (drv_uniq s') then uniq_ok := false;
   match r with
   | Inl v -> show_value v
   | Inr e -> "exn " ^ exn_name e
@@ -138,6 +151,7 @@ let run_op w (t : string list) : string =
       let dd = if d = "-" then None else Some (pos_of_name d) in
       let (s', r) = drv_exec (OGetSilent (pos_of_name n, dd)) w.st in
       w.st <- s';
+      if not (drv_uniq s') then uniq_ok := false;
       (match r with
        | Inl (VHandle (Some h)) -> Hashtbl.replace w.alias n h; "ok " ^ hname h
        | Inl v -> show_value v
@@ -146,6 +160,7 @@ let run_op w (t : string list) : string =
   | _ -> (match Heap_ops2.run_op2 (fun n -> Hashtbl.mem w.alias n) (handle w) w.st t with
           | Some (s', r) ->
               w.st <- s';
+              guard_ok := false;   (* calls outside the theorem's op set *)
               (* elements created by the op (copies, helper objects) are known by their numbers *)
               List.iter (fun (h, _) -> if not (Hashtbl.mem w.alias (hname h)) then Hashtbl.replace w.alias (hname h) h)
                 (drv_elems s');
@@ -159,10 +174,12 @@ let run () =
       let line = input_line stdin in
       match split_ws line with
       | [] -> ()
-      | ["end"] -> print_string "end\n"; w := { st = drv_empty; alias = Hashtbl.create 64 }
+      | ["end"] -> print_string "end\n"; tally (); w := { st = drv_empty; alias = Hashtbl.create 64 }
       | "case" :: _ -> print_string (line ^ "\n")
       | t ->
           let r = (try run_op !w t with Bad -> "exn BadHandle" | Failure _ -> "exn BadHandle") in
           print_string (r ^ "\n")
     done
-  with End_of_file -> ()
+  with End_of_file ->
+    Printf.eprintf "MSTAT cases=%d guard_ok=%d uniq_fail_guarded=%d uniq_fail_unguarded=%d\n"
+      !st_cases !st_guard !st_fail_guarded !st_fail_unguarded
